@@ -364,4 +364,293 @@ theorem latest_state_reported (s : Store) (thr : Nat) (out : List Rec)
   · simp only [Bool.false_eq_true, if_false, Option.some.injEq] at h
     rw [← h]; exact mem_dedup_iff _ r
 
+/-! ## the lifecycle invariant over every operation sequence -/
+
+/-- the states recorded for signer `k`, in history order -/
+def hist (s : Store) (k : Nat) : List NState := (s.filter (fun r => r.signer == k)).map (·.state)
+
+/-- the lifecycles a signer key can have: a genesis node (accepted first) or a pledged node -/
+def allowed : List (List NState) :=
+  [[], [.accepted], [.accepted, .removed], [.pledging], [.pledging, .accepted],
+   [.pledging, .cancelled], [.pledging, .accepted, .removed]]
+
+structure Inv (s : Store) : Prop where
+  pos : ∀ r ∈ s, 0 < r.ts
+  life : ∀ k, hist s k ∈ allowed
+  pendingLast : ∀ r ∈ dedup s, r.state = .pledging → s.getLast? = some r
+
+theorem hist_append (s : Store) (r : Rec) (k : Nat) :
+    hist (s ++ [r]) k = hist s k ++ (if r.signer == k then [r.state] else []) := by
+  unfold hist
+  rw [List.filter_append, List.map_append]
+  by_cases h : (r.signer == k) = true <;> simp [List.filter_cons, h]
+
+theorem hist_nil_of_absent (s : Store) (k : Nat) (h : ∀ r ∈ s, r.signer ≠ k) : hist s k = [] := by
+  unfold hist
+  rw [List.map_eq_nil_iff, List.filter_eq_nil_iff]
+  intro r hr; simpa using h r hr
+
+theorem hist_last_of_getLast (s : Store) (l : Rec) (h : s.getLast? = some l) :
+    (hist s l.signer).getLast? = some l.state := by
+  obtain ⟨ys, rfl⟩ := List.getLast?_eq_some_iff.mp h
+  rw [hist_append]; simp
+
+theorem hist_last_of_lastOf (s : Store) (k : Nat) (n : Rec) (h : lastOf k s = some n) :
+    (hist s k).getLast? = some n.state := by
+  induction s with
+  | nil => simp [lastOf] at h
+  | cons a rest ih =>
+    have hcons : hist (a :: rest) k = (if a.signer == k then [a.state] else []) ++ hist rest k := by
+      unfold hist
+      by_cases ha : (a.signer == k) = true <;> simp [List.filter_cons, ha]
+    simp only [lastOf] at h
+    cases hl : lastOf k rest with
+    | some x =>
+      simp only [hl, Option.some.injEq] at h
+      subst h
+      have := ih hl
+      rw [hcons, List.getLast?_append, this]; rfl
+    | none =>
+      simp only [hl] at h
+      have hnil : hist rest k = [] := hist_nil_of_absent rest k ((lastOf_none_iff k rest).mp hl)
+      by_cases ha : (a.signer == k) = true
+      · simp only [ha, if_true, Option.some.injEq] at h
+        subst h
+        rw [hcons, hnil]; simp [ha]
+      · simp [ha] at h
+
+theorem allowed_last_pledging (h : List NState) (hm : h ∈ allowed)
+    (hl : h.getLast? = some .pledging) : h = [.pledging] := by
+  simp only [allowed, List.mem_cons, List.not_mem_nil, or_false] at hm
+  rcases hm with rfl | rfl | rfl | rfl | rfl | rfl | rfl <;> simp_all
+
+theorem allowed_last_accepted (h : List NState) (hm : h ∈ allowed)
+    (hl : h.getLast? = some .accepted) : h = [.accepted] ∨ h = [.pledging, .accepted] := by
+  simp only [allowed, List.mem_cons, List.not_mem_nil, or_false] at hm
+  rcases hm with rfl | rfl | rfl | rfl | rfl | rfl | rfl <;> simp_all
+
+/-- appending one record keeps the invariant when (a) the signer's lifecycle stays allowed and
+    (b) no *other* node is left pending behind a non-pledging record -/
+theorem inv_append (s : Store) (r : Rec) (hi : Inv s) (hpos : 0 < r.ts)
+    (hlife : hist s r.signer ++ [r.state] ∈ allowed)
+    (hpend : ∀ x ∈ dedup s, x.signer ≠ r.signer → x.state ≠ .pledging) : Inv (s ++ [r]) := by
+  constructor
+  · intro x hx
+    rcases List.mem_append.mp hx with h | h
+    · exact hi.pos x h
+    · simp only [List.mem_singleton] at h; rw [h]; exact hpos
+  · intro k
+    rw [hist_append]
+    by_cases hk : r.signer = k
+    · subst hk; simpa using hlife
+    · have : (r.signer == k) = false := by simp [hk]
+      simp only [this, Bool.false_eq_true, if_false, List.append_nil]; exact hi.life k
+  · intro x hx hp
+    rw [dedup_append_one] at hx
+    rcases List.mem_append.mp hx with h | h
+    · rw [List.mem_filter] at h
+      exact absurd hp (hpend x h.1 (by simpa using h.2))
+    · simp only [List.mem_singleton] at h; subst h; simp
+
+def stateOf : OpKind → NState
+  | .pledge => .pledging
+  | .accept => .accepted
+  | .genesis => .accepted
+  | .cancel => .cancelled
+  | .remove => .removed
+
+/-- **the lifecycle step.** Inside the timestamp discipline every accepted non-genesis
+    operation keeps the invariant and appends exactly its own record. -/
+theorem step_inv (c : Cfg) (s s' : Store) (o : Op) (hi : Inv s) (hf : Fresh c s o.ts)
+    (hg : o.kind ≠ .genesis) (h : write c s o = .ok s') :
+    Inv s' ∧ s' = s ++ [⟨o.ts, o.signer, o.payee, o.tx, stateOf o.kind⟩] := by
+  unfold write at h
+  cases hk : o.kind with
+  | genesis => exact absurd hk hg
+  | pledge =>
+    simp only [hk] at h
+    obtain ⟨h1, h2, _, h4⟩ := pledge_accepted c s s' _ _ _ _ hf h
+    refine ⟨?_, h4⟩
+    rw [h4]
+    apply inv_append s _ hi hf.1
+    · rw [hist_nil_of_absent s o.signer h2]; simp [allowed]
+    · intro x hx _; exact h1 x hx
+  | accept =>
+    simp only [hk] at h
+    obtain ⟨⟨l, hl, hls, hlk, _⟩, h4⟩ := accept_accepted c s s' _ _ _ _ hf h
+    refine ⟨?_, h4⟩
+    rw [h4]
+    apply inv_append s _ hi hf.1
+    · have := hist_last_of_getLast s l hl
+      rw [hlk, hls] at this
+      rw [allowed_last_pledging _ (hi.life o.signer) this]; simp [allowed]
+    · intro x hx hne hp
+      have := hi.pendingLast x hx hp
+      rw [hl] at this; simp only [Option.some.injEq] at this
+      exact hne (by rw [← this]; exact hlk)
+  | cancel =>
+    simp only [hk] at h
+    obtain ⟨⟨l, hl, hls, hlk, _⟩, h4⟩ := cancel_accepted c s s' _ _ _ _ hf h
+    refine ⟨?_, h4⟩
+    rw [h4]
+    apply inv_append s _ hi hf.1
+    · have := hist_last_of_getLast s l hl
+      rw [hlk, hls] at this
+      rw [allowed_last_pledging _ (hi.life o.signer) this]; simp [allowed]
+    · intro x hx hne hp
+      have := hi.pendingLast x hx hp
+      rw [hl] at this; simp only [Option.some.injEq] at this
+      exact hne (by rw [← this]; exact hlk)
+  | remove =>
+    simp only [hk] at h
+    obtain ⟨⟨n, hn, hns, _⟩, ⟨l, hl, hls⟩, h4⟩ := remove_accepted c s s' _ _ _ _ hf h
+    refine ⟨?_, h4⟩
+    rw [h4]
+    apply inv_append s _ hi hf.1
+    · have := hist_last_of_lastOf s o.signer n hn
+      rw [hns] at this
+      rcases allowed_last_accepted _ (hi.life o.signer) this with h | h <;> rw [h] <;> simp [allowed]
+    · intro x hx _ hp
+      have := hi.pendingLast x hx hp
+      rw [hl] at this; simp only [Option.some.injEq] at this
+      rw [this, hp] at hls; simp [isSettled] at hls
+
+/-- the base case: the genesis file — accepted nodes with distinct signer keys -/
+def GenesisStore (g : Store) : Prop :=
+  (∀ r ∈ g, r.state = .accepted ∧ 0 < r.ts) ∧ (g.map (·.signer)).Nodup
+
+theorem hist_cons (a : Rec) (rest : Store) (k : Nat) :
+    hist (a :: rest) k = (if a.signer == k then [a.state] else []) ++ hist rest k := by
+  unfold hist
+  by_cases ha : (a.signer == k) = true <;> simp [List.filter_cons, ha]
+
+theorem genesis_hist (g : Store) (k : Nat) (h1 : ∀ r ∈ g, r.state = .accepted)
+    (h2 : (g.map (·.signer)).Nodup) : hist g k = [] ∨ hist g k = [.accepted] := by
+  induction g with
+  | nil => left; rfl
+  | cons a rest ih =>
+    rw [List.map_cons, List.nodup_cons] at h2
+    rw [hist_cons]
+    by_cases ha : a.signer = k
+    · right
+      have hn : hist rest k = [] := by
+        apply hist_nil_of_absent
+        intro r hr hk
+        exact h2.1 (List.mem_map.mpr ⟨r, hr, by rw [hk, ha]⟩)
+      have hs : a.state = .accepted := h1 a (by simp)
+      simp [ha, hn, hs]
+    · have : (a.signer == k) = false := by simp [ha]
+      simp only [this, Bool.false_eq_true, if_false, List.nil_append]
+      exact ih (fun r hr => h1 r (List.mem_cons_of_mem _ hr)) h2.2
+
+theorem genesis_inv (g : Store) (hg : GenesisStore g) : Inv g := by
+  obtain ⟨h1, h2⟩ := hg
+  constructor
+  · intro r hr; exact (h1 r hr).2
+  · intro k
+    rcases genesis_hist g k (fun r hr => (h1 r hr).1) h2 with h | h <;> rw [h] <;> simp [allowed]
+  · intro r hr hp
+    have := (h1 r (dedup_sub g r hr)).1
+    rw [this] at hp; exact absurd hp (by simp)
+
+/-- an operation sequence inside the discipline: no genesis writes, and every operation that
+    the store accepts carries a timestamp fresh for the history it is applied to (rejected
+    operations may carry any timestamp) -/
+def Disciplined (c : Cfg) : Store → List Op → Prop
+  | _, [] => True
+  | s, o :: rest =>
+    o.kind ≠ .genesis ∧ (∀ s', write c s o = .ok s' → Fresh c s o.ts) ∧ Disciplined c (step c s o) rest
+
+/-- **lifecycle_invariant.** From the genesis nodes, over every operation sequence inside the
+    timestamp discipline — valid and invalid operations mixed — the history keeps the
+    invariant. -/
+theorem lifecycle_invariant (c : Cfg) (s : Store) (ops : List Op) (hi : Inv s)
+    (hd : Disciplined c s ops) : Inv (run c s ops) := by
+  induction ops generalizing s with
+  | nil => exact hi
+  | cons o rest ih =>
+    obtain ⟨hg, hfr, hrest⟩ := hd
+    unfold run; rw [List.foldl_cons]
+    apply ih _ _ hrest
+    unfold step
+    cases hw : write c s o with
+    | ok s' => exact (step_inv c s s' o hi (hfr s' hw) hg hw).1
+    | reject => exact hi
+    | panic => exact hi
+
+theorem reachable_inv (c : Cfg) (g : Store) (ops : List Op) (hg : GenesisStore g)
+    (hd : Disciplined c g ops) : Inv (run c g ops) :=
+  lifecycle_invariant c g ops (genesis_inv g hg) hd
+
+/-- **signer_keys_unique.** In every reachable history each signer key has one of the seven
+    lifecycles: it is born at most once (one genesis accept or one pledge), so signer keys
+    never repeat across nodes; a pledge is followed only by its accept or cancel, an accept
+    only by its remove. -/
+theorem signer_keys_unique (c : Cfg) (g : Store) (ops : List Op) (hg : GenesisStore g)
+    (hd : Disciplined c g ops) (k : Nat) :
+    hist (run c g ops) k ∈ allowed ∧ (hist (run c g ops) k).count .pledging ≤ 1 ∧
+      ((hist (run c g ops) k).drop 1).all (· != .pledging) = true := by
+  have hm := (reachable_inv c g ops hg hd).life k
+  refine ⟨hm, ?_, ?_⟩
+  all_goals
+    simp only [allowed, List.mem_cons, List.not_mem_nil, or_false] at hm
+    rcases hm with h | h | h | h | h | h | h <;> rw [h] <;> decide
+
+/-- **at_most_one_pending.** In every reachable history at most one node's latest state is
+    pledging, and it is the most recent record. -/
+theorem at_most_one_pending (c : Cfg) (g : Store) (ops : List Op) (hg : GenesisStore g)
+    (hd : Disciplined c g ops) (r1 r2 : Rec)
+    (h1 : r1 ∈ dedup (run c g ops)) (h2 : r2 ∈ dedup (run c g ops))
+    (p1 : r1.state = .pledging) (p2 : r2.state = .pledging) :
+    r1 = r2 ∧ (run c g ops).getLast? = some r1 := by
+  have hi := reachable_inv c g ops hg hd
+  have a := hi.pendingLast r1 h1 p1
+  have b := hi.pendingLast r2 h2 p2
+  rw [a] at b; simp only [Option.some.injEq] at b
+  exact ⟨b, a⟩
+
+/-! ## non-vacuity and the boundary of the discipline -/
+
+def cfg12h : Cfg := ⟨43200000000000, 43200000000000⟩
+
+/-- the regenerated constants are the periods used in the examples -/
+example : cfg12h = ⟨Mixin.Facts.Gen.config_KernelNodePledgePeriodMinimum,
+    Mixin.Facts.Gen.config_KernelNodeAcceptPeriodMinimum⟩ := rfl
+
+/-- the four state strings written by the storage layer are pairwise distinct -/
+theorem state_strings_distinct :
+    [Mixin.Facts.Gen.common_NodeStatePledging, Mixin.Facts.Gen.common_NodeStateAccepted,
+     Mixin.Facts.Gen.common_NodeStateRemoved, Mixin.Facts.Gen.common_NodeStateCancelled].Nodup := by
+  decide
+
+def g2 : Store := [⟨100, 1, 11, 21, .accepted⟩, ⟨100, 2, 12, 22, .accepted⟩]
+
+example : GenesisStore g2 := by
+  constructor
+  · intro r hr; simp [g2] at hr; rcases hr with rfl | rfl <;> simp
+  · decide
+
+/-- `opsOk` below is inside the discipline from `g2` -/
+example : Fresh cfg12h g2 200 := by
+  refine ⟨by decide, ?_, by decide, by decide⟩
+  intro r hr; simp [g2] at hr; rcases hr with rfl | rfl <;> simp
+
+def opsOk : List Op :=
+  [⟨.pledge, 3, 13, 23, 200⟩, ⟨.pledge, 4, 14, 24, 300⟩, ⟨.accept, 3, 14, 25, 400⟩,
+   ⟨.accept, 3, 13, 26, 500⟩, ⟨.remove, 1, 11, 27, 600⟩, ⟨.pledge, 1, 11, 28, 700⟩,
+   ⟨.pledge, 5, 15, 29, 800⟩, ⟨.cancel, 5, 15, 30, 900⟩, ⟨.pledge, 5, 15, 31, 1000⟩]
+
+/-- a mixed sequence: the lifecycle runs, the invalid operations are rejected -/
+example : (run cfg12h g2 opsOk).map (fun r => (r.signer, r.state)) =
+    [(1, .accepted), (2, .accepted), (3, .pledging), (3, .accepted), (1, .removed),
+     (5, .pledging), (5, .cancelled)] := by decide
+
+/-- outside the discipline the statement fails in the model (and on the real store, see the
+    harness corpus): a pledge dated more than 12 h before a pending pledge does not see it -/
+theorem pledge_while_pending_outside_discipline :
+    ∃ s', writePledge cfg12h [⟨100, 1, 11, 21, .accepted⟩, ⟨100000000000000, 2, 12, 22, .pledging⟩]
+        3 13 23 50000000000000 = .ok s' ∧
+      (s'.filter (fun r => r.state == .pledging)).length = 2 := by
+  refine ⟨_, rfl, ?_⟩; decide
+
 end Mixin.C27
